@@ -38,7 +38,7 @@ let field key toks =
 
 let fieldi key toks = match field key toks with Some v -> (try int_of_string v with _ -> -1) | None -> -1
 
-let is_pattern = function "pubsub" | "event" | "reqres" | "blackboard" | "reqres2" | "rrovf" | "ps2" -> true | _ -> false
+let is_pattern = function "pubsub" | "event" | "reqres" | "blackboard" | "reqres2" | "rrovf" | "ps2" | "openfail" -> true | _ -> false
 let pattern_of = function
   | "pubsub" -> Some M.PubSub | "event" -> Some M.Event | "reqres" -> Some M.ReqRes | "blackboard" -> Some M.Blackboard
   | _ -> None
@@ -130,7 +130,7 @@ let f2_precondition names dropped res =
    port B side on the last node); the directory of a node stays behind iff the LAST of them to be dropped
    is a port-side object.  Returns the number of directories predicted to stay. *)
 let side_a = ["publisher"; "sample_mut"; "notifier"; "client"; "pending_response"; "response"; "writer"; "entry_handle_mut";
-              "pending_a"; "pending_b"; "response_b"; "publisher1"; "publisher2"]
+              "pending_a"; "pending_b"; "response_b"; "publisher1"; "publisher2"; "node_a"]
 let predicted_node_dirs names nn dropped =
   let order = chrono dropped in
   let n = Array.length names in
@@ -139,6 +139,7 @@ let predicted_node_dirs names nn dropped =
     let holders = List.filter (fun k ->
         if k < nn then k = node
         else if k < 2 * nn then k - nn = node
+        else if names.(k) = "node_b" then false
         else (if List.mem names.(k) side_a then node = 0 else node = nn - 1)) (List.init n (fun k -> k)) in
     let last = List.fold_left (fun best k -> if pos_in order k > pos_in order best then k else best) (List.hd holders) holders in
     (* the directory stays iff the last holder's drop releases the SharedNode while a port tag of the node
@@ -185,7 +186,7 @@ let () =
          Hashtbl.replace distinct (pname ^ soi (fieldi "nodes" toks) ^ order) ();
          (match is_pattern pname with
           | false -> mismatch "model" short "unknown-pattern" "-" pname
-          | true when pname = "rrovf" || pname = "ps2" ->
+          | true when pname = "rrovf" || pname = "ps2" || pname = "openfail" ->
             (* behavioural family without a model instance: only the property-side checks apply *)
             cur := Some { hdr = short; pname; two; fs; g = []; h = []; fuel = M.O; names; st = None; dropped = []; ended = false }
           | true ->
